@@ -7,6 +7,7 @@ import server_cases as sc
 
 A, B = 'http://site.test/a', 'https://site.test/b'
 UP = {A: sc.ok_up(sc.HTML_A), B: sc.ok_up(sc.HTML_B), 'http://site.test/a2': sc.ok_up(b'<p>other</p>'),
+      **{u + sfx: sc.ok_up(b'<p>variant</p>') for u in (A, B) for sfx in ('caf\u00e9', 'cafe\u0301', '\u212b', '\u00c5', '\ufb01', 'fi', '\uac00', '\u1100\u1161')},
       'http://site.test/a ': sc.ok_up(b'<p>space</p>'), 'http://site.test/a\x01': sc.ok_up(b'<p>ctl</p>')}
 TAG = re.compile(r'\*|(?:W/)?"[^"]*"')
 
@@ -20,7 +21,9 @@ def variants(base):
             out.append((d2, raw))
     for i, (k, v) in enumerate(raw):
         for v2 in (v + ' ', ' ' + v, v + '\x01', v + '2', v.upper() if v.upper() != v else v + 'X', v + '+', v + '\t', v + ' ', v + "'",
-                   v + '"', v + '\\', v + '\n'):
+                   v + '"', v + '\\', v + '\n',
+                   # the same text in another Unicode normalisation form / compatibility spelling is a different parameter value
+                   v + 'caf\u00e9', v + 'cafe\u0301', v + '\u212b', v + '\u00c5', v + '\ufb01', v + 'fi', v + '\uac00', v + '\u1100\u1161'):
             out.append((differ, raw[:i] + [(k, v2)] + raw[i + 1:]))
         if k not in ('a', 'b'):
             out.append((differ, raw[:i] + raw[i + 1:]))
